@@ -2608,9 +2608,12 @@ class Face3D(Base2DIn3D):
         for sub_poly in polys[1:]:
             for i, pg in enumerate(poly_groups):
                 if tolerance is not None:  # tolerate holes that touch the boundary
-                    is_hole = pg[0].polygon_relationship(sub_poly, tolerance) == 1
+                    is_hole = pg[0].polygon_relationship(sub_poly, tolerance) == 1 \
+                        and not any(hole.polygon_relationship(sub_poly, tolerance) == 1
+                                    for hole in pg[1:])  # island within a hole
                 else:
-                    is_hole = pg[0].is_polygon_inside(sub_poly)
+                    is_hole = pg[0].is_polygon_inside(sub_poly) and \
+                        not any(hole.is_polygon_inside(sub_poly) for hole in pg[1:])
                 if is_hole:
                     poly_groups[i].append(sub_poly)
                     break
